@@ -85,6 +85,63 @@ def reversedRem (p : Nat → Bool) : Nat → Store → Nat → List Nat × Store
       let r := reversedRem p f s' (s'.prev curr)
       (k :: r.1, r.2)
 
+/-- the loop body "replace the visited element": `s.discard(k); s.add(fresh + added)` -/
+def replaceAt (fresh added k : Nat) (s : Store) : Store := add (fresh + added) (discard k s)
+
+/-- `for x in s:` whose body REPLACES the visited element when `p x` holds and fewer than `limit` were added so far
+    (`s.discard(x); s.add(fresh + added)`: the node is unlinked and a fresh node is linked before the sentinel); the
+    generator holds the visited node and reads its `next` AFTER the body ran -/
+def iterReplace (p : Nat → Bool) (fresh limit : Nat) : Nat → Store → Nat → Nat → List Nat × Store
+  | 0, s, _, _ => ([], s)
+  | f+1, s, curr, added =>
+    if curr = 0 then ([], s) else
+      let k := s.key curr
+      let doit := p k && decide (added < limit)
+      let s' := if doit then replaceAt fresh added k s else s
+      let r := iterReplace p fresh limit f s' (s'.next curr) (if doit then added + 1 else added)
+      (k :: r.1, r.2)
+
+/-- the same over `reversed(s)`: the generator reads `prev` of the visited node after the body ran -/
+def reversedReplace (p : Nat → Bool) (fresh limit : Nat) : Nat → Store → Nat → Nat → List Nat × Store
+  | 0, s, _, _ => ([], s)
+  | f+1, s, curr, added =>
+    if curr = 0 then ([], s) else
+      let k := s.key curr
+      let doit := p k && decide (added < limit)
+      let s' := if doit then replaceAt fresh added k s else s
+      let r := reversedReplace p fresh limit f s' (s'.prev curr) (if doit then added + 1 else added)
+      (k :: r.1, r.2)
+
+/-- list-level meaning of the forward loop: `pre` = the elements behind the iterator, `suf` = the elements still ahead of it
+    (first = the one visited next), result = (visit list, final content).  A replaced element leaves, its fresh replacement is
+    appended; the iterator reaches it — unless the replaced element was the LAST one of the ring at that moment (its stale
+    `next` is the sentinel: the walk ends) -/
+def absIterReplace (p : Nat → Bool) (fresh limit : Nat) : Nat → List Nat → List Nat → Nat → List Nat × List Nat
+  | 0, pre, suf, _ => ([], pre ++ suf)
+  | _+1, pre, [], _ => ([], pre)
+  | f+1, pre, k :: suf, added =>
+    if p k && decide (added < limit) then
+      match suf with
+      | [] => ([k], pre ++ [fresh + added])
+      | _ :: _ =>
+        let r := absIterReplace p fresh limit f pre (suf ++ [fresh + added]) (added + 1)
+        (k :: r.1, r.2)
+    else
+      let r := absIterReplace p fresh limit f (pre ++ [k]) suf added
+      (k :: r.1, r.2)
+
+/-- list-level meaning of the backward loop: `preRev` = the elements still ahead of the iterator, nearest first; `tail` = the
+    elements behind it.  Fresh elements are appended behind the iterator: it never reaches them -/
+def absReversedReplace (p : Nat → Bool) (fresh limit : Nat) : List Nat → List Nat → Nat → List Nat × List Nat
+  | [], tail, _ => ([], tail)
+  | k :: restRev, tail, added =>
+    if p k && decide (added < limit) then
+      let r := absReversedReplace p fresh limit restRev (tail ++ [fresh + added]) (added + 1)
+      (k :: r.1, r.2)
+    else
+      let r := absReversedReplace p fresh limit restRev (k :: tail) added
+      (k :: r.1, r.2)
+
 def len (s : Store) : Nat := (toList s).length
 
 /-- the two mutators as data, so that "any state reachable by add/discard" is a fold from `empty` -/
